@@ -84,7 +84,7 @@ def null_guard(f):
 
 def collect(repo):
     base = ["-std=c99", "-I" + os.path.join(repo, "include"), "-I" + os.path.join(repo, "src"), "-msse2", "-mavx2"]
-    facts = {"alloc": [], "cleanse": [], "globals": [], "asm": [], "guards": {}, "structs": {}}
+    facts = {"alloc": [], "cleanse": [], "globals": [], "asm": [], "guards": {}, "structs": {}, "cleanup_seq": {}}
     for fn in SRC:
         path = os.path.join(repo, "src", fn)
         if not os.path.exists(path):
@@ -105,6 +105,15 @@ def collect(repo):
                     if cn == "skinny_cleanse":
                         args = n["inner"][1:]
                         facts["cleanse"].append({"file": fn, "func": fname, "size": sizeof_arg(tu, args[1])})
+                if n.get("kind") == "CallExpr" and fname.endswith("_cleanup"):
+                    cn = callee_name(n)
+                    if cn is not None:
+                        names = []
+                        def g(x, names=names):
+                            if x.get("kind") == "DeclRefExpr": names.append(x["referencedDecl"]["name"])
+                            if x.get("kind") == "MemberExpr": names.append("." + x.get("name", ""))
+                        for a in n["inner"][1:2]: walk(a, g)
+                        facts["cleanup_seq"].setdefault(fn + ":" + fname, []).append([cn, names])
                 if n.get("kind") == "GCCAsmStmt":
                     facts["asm"].append({"file": fn, "func": fname})
             if not name.startswith("__") and (name.startswith("skinny") or name.startswith("mantis") or name.startswith("_skinny") or name.startswith("_mantis")):
@@ -168,6 +177,29 @@ def sizes_line(facts):
              "mantis-ctr.c", "mantis-ctr-vec128.c", "skinny128-parallel.c", "skinny64-parallel.c", "mantis-parallel.c"]
     return "sizes " + " ".join(str(find(f, None)) for f in order)
 
+CTX_ORDER = ["skinny128-ctr.c", "skinny128-ctr-vec128.c", "skinny128-ctr-vec256.c", "skinny64-ctr.c", "skinny64-ctr-vec128.c",
+             "mantis-ctr.c", "mantis-ctr-vec128.c", "skinny128-parallel.c", "skinny64-parallel.c", "mantis-parallel.c"]
+
+def ctx_table(facts):
+    """per context type (fixed order): (bytes requested at init, bytes cleansed at cleanup, cleanup order ok)
+    cleanup order ok: in the file's *_cleanup function that frees, the call sequence is skinny_cleanse(ctx...) then free(...)
+    with nothing else in between and the cleansed pointer is the context variable"""
+    rows = []
+    for f in CTX_ORDER:
+        al = [a["size"] or 0 for a in facts["alloc"] if a["file"] == f]
+        cl = [c["size"] or 0 for c in facts["cleanse"] if c["file"] == f and c["func"].endswith("_cleanup")]
+        seqs = [v for k, v in facts["cleanup_seq"].items() if k.startswith(f + ":") and any(c[0] == "free" for c in v)]
+        ok = len(seqs) == 1 and len(al) == 1 and len(cl) == 1
+        if ok:
+            calls = [c for c in seqs[0]]
+            names = [c[0] for c in calls]
+            ok = names == ["skinny_cleanse", "free"] and ("ctx" in calls[0][1] or ".ctx" in calls[0][1])
+        rows.append((al[0] if len(al) == 1 else 0, cl[0] if len(cl) == 1 else 0, ok))
+    return rows
+
+def cleanse_line(facts):
+    return "cleanse " + " ".join(str(r[1]) if r[2] else "0" for r in ctx_table(facts))
+
 def to_lean(facts):
     L = ["/- GENERATED by tools/facts.py from /repo -- do not edit -/", "namespace SkinnyVerif.Gen.Facts", ""]
     L.append("/-- (file, function, allocator, size argument) of every allocation request -/")
@@ -180,6 +212,9 @@ def to_lean(facts):
     L.append("def guards : List (String × List String × List String) := [" + ", ".join('("%s", [%s], [%s])' % (k, ", ".join('"%s"' % p for p in v["params"]), ", ".join('"%s"' % p for p in v["checked_before_use"])) for k, v in sorted(facts["guards"].items())) + "]")
     L.append("/-- inline-asm statements of the CPU probes: (function, template, outputs, inputs as (constraint, value)) -/")
     L.append("def asmOps : List (String × String × List String × List (String × String)) := [" + ", ".join('("%s", "%s", [%s], [%s])' % (a["func"], a["template"].replace('"', "'").replace("\\", "\\\\"), ", ".join('"%s"' % o for o in a["outputs"]), ", ".join('("%s", "%s")' % (c, v) for c, v in a["inputs"])) for a in facts["asm_ops"]) + "]")
+    L.append("/-- per context type, in the order s128 generic/vec128/vec256, s64 generic/vec128, mantis generic/vec128, parallel s128/s64/mantis:")
+    L.append("(bytes requested at init, bytes cleansed in cleanup, cleanup is exactly `skinny_cleanse(ctx, n); free(..)`) -/")
+    L.append("def ctxTable : List (Nat × Nat × Bool) := [" + ", ".join("(%d, %d, %s)" % (a, c, "true" if o else "false") for a, c, o in ctx_table(facts)) + "]")
     L.append("\nend SkinnyVerif.Gen.Facts\n")
     return "\n".join(L)
 
